@@ -274,11 +274,11 @@ static void observe(void)
 			snprintf(key, sizeof(key), "answer-missing:want=%s:after=%s", r->expect_member, last_action);
 			fail_with_transcripts(key, "request %s of %s (to %s owned by %s) should have received its final %s by now but nothing arrived", r->idtext, SLOTNAME[r->caller], r->path, SLOTNAME[r->owner], r->expect_member);
 		}
-		if (r->st == R_PENDING && !r->delivered && r->refused_ok && (r->idtext[0] == 0 || stalled[r->caller])) {
+		if (r->st == R_PENDING && !r->delivered && r->refused_ok && !stalled[r->owner] && (r->idtext[0] == 0 || stalled[r->caller])) {
 			r->st = R_FINAL; /* a request without id (or of a caller that no longer reads) may have been refused at the owner's limit: unobservable, legal */
 			continue;
 		}
-		if (r->st == R_PENDING && !r->delivered && alive(r->owner) && r->owner_gen == gen[r->owner] && caller_here) {
+		if (r->st == R_PENDING && !r->delivered && alive(r->owner) && !stalled[r->owner] && r->owner_gen == gen[r->owner] && caller_here) {
 			char key[160];
 			snprintf(key, sizeof(key), "routed-delivery-missing:to=%s", SLOTNAME[r->owner]);
 			fail_with_transcripts(key, "request %s of %s was neither delivered to owner %s nor refused", r->idtext, SLOTNAME[r->caller], SLOTNAME[r->owner]);
@@ -325,6 +325,9 @@ static const struct action ACTIONS[] = {
     {"O2:remove(s2)", 7, O2, 1, 0},
     /* a caller stops reading: once the daemon's write buffer for it is full (96 bytes in the tiny build) its answers cannot be delivered */
     {"K1:stops-reading", 9, K1, 0, 0},
+    /* an owner stops reading: requests routed to it are queued in the daemon's write buffer while there is room; once there is none the
+     * forward fails and the caller is told at once - and then never again */
+    {"O2:stops-reading", 9, O2, 0, 0},
 };
 #define NACTIONS ((int)(sizeof(ACTIONS) / sizeof(ACTIONS[0])))
 
@@ -397,6 +400,10 @@ static void do_request(int caller, int target, int idform, const char *payload, 
 	r->fresh = defer_settle;
 	/* the per-owner limit: a put into the owner's routing table can only fail when at least 2^(order-1) entries are in flight */
 	r->refused_ok = inflight_for_owner(r->owner) - 1 >= (1 << (CONFIG_ROUTING_TABLE_ORDER - 1)); /* - 1: without this request itself */
+	if (stalled[r->owner]) {
+		r->refused_ok = true; /* the forward may fail: an immediate error is a legal final answer */
+		xp_count("requests_to_an_owner_that_stopped_reading", 1);
+	}
 	if (fd_limit > 0 && model_fds() - 1 >= fd_limit) {
 		r->refused_ok = true; /* no descriptor left for this request's timer */
 		xp_count("requests_made_at_the_descriptor_limit", 1);
@@ -525,7 +532,7 @@ static uint64_t model_hash(int remaining)
 		h = hash_mix(h, alive(s) ? 1 : 0);
 		h = hash_mix(h, last_answered_rid[s][0] ? 1 : 0);
 	}
-	h = hash_mix(h, (uint64_t)elem_exists[0] + 2 * (uint64_t)elem_exists[1] + 4 * (uint64_t)elem_exists[2] + 8 * (uint64_t)stalled[K1]);
+	h = hash_mix(h, (uint64_t)elem_exists[0] + 2 * (uint64_t)elem_exists[1] + 4 * (uint64_t)elem_exists[2] + 8 * (uint64_t)stalled[K1] + 16 * (uint64_t)stalled[O2]);
 	/* multiset of live requests in creation order: (caller, owner, idform, delivered, state); finished ones only matter through the ledger */
 	for (int i = 0; i < nreqs; i++) {
 		struct req *r = &reqs[i];
